@@ -1,18 +1,20 @@
-INIT Init
-NEXT MCNext
+INIT SInit
+NEXT SNext
 CONSTANTS
-  Stacks <- Stacks2
+  Stacks <- Stacks3
   Indeps <- Both
   Targets <- AllTargets
-  MaxHooks = 1
+  MaxHooks = 2
   InitRegs <- C3Regs
   RegClasses <- None
   RegBehs <- None
   MaxRegs = 0
-  RaiseClasses <- C3RaiseQ
+  RaiseClasses <- C3Raise
   RenderClasses <- C3Render
   Mro <- MCMro
   StatusOf <- MCStatus
+  OwnVary <- MCOwnVary
+  MaxReqs = 1
   WrongDesign = "none"
-  MaxFaults = 1
+  MaxFaults = 4
 INVARIANT Emit
